@@ -11,8 +11,8 @@ import (
 
 	"github.com/safing/portbase/api"
 	"github.com/safing/portbase/config"
-	"github.com/safing/portbase/database/record"
 	_ "github.com/safing/portbase/database/dbmodule" // the api module depends on the database module
+	"github.com/safing/portbase/database/record"
 	"github.com/safing/portbase/modules"
 )
 
@@ -56,7 +56,7 @@ func (aw *apiWorld) healthyFn(r *http.Request, started *atomic.Int32) {
 	aw.log.Rec("begin", "healthy", r.URL.Path, nil)
 	if r.URL.Query().Get("block") == "1" {
 		started.Add(1)
-		aw.healthyWait()
+		aw.healthyWait(r.Context())
 	}
 	aw.log.Rec("end", "healthy", r.URL.Path, nil)
 }
